@@ -66,14 +66,32 @@ def fam_elif_chain(k):
     return {"main.asm": s}, ("either", "43")
 
 
+def eval_depth_max():
+    """The evaluation recursion limit as the source declares it (expr::EVAL_RECURSION_DEPTH_MAX): expectations at the
+    boundary follow the declared constant, so changing the constant is not an alarm but an off-by-one around it is."""
+    import re
+    import lib
+    try:
+        m = re.search(r"EVAL_RECURSION_DEPTH_MAX\s*:\s*usize\s*=\s*(\d+)", open(lib.REPO + "/src/expr/mod.rs").read())
+        return int(m.group(1)) if m else None
+    except OSError:
+        return None
+
+
+def depth_expect(k, limit, value):
+    if limit is None:
+        return ("either", value)
+    return ("value", value) if k <= limit else ("error",)
+
+
 def fam_asm_nest(k):
     rules = ["    emit {x: u8} => x"] + ["    m%d {x} => asm { %s {x} }" % (i, "m%d" % (i + 1) if i + 1 < k else "emit") for i in range(k)]
-    return {"main.asm": "#ruledef\n{\n" + "\n".join(rules) + "\n}\nm0 7\n"}, ("either", "07")
+    return {"main.asm": "#ruledef\n{\n" + "\n".join(rules) + "\n}\nm0 7\n"}, depth_expect(k, (eval_depth_max() or 0) // 2 or None, "07")
 
 
 def fam_fn_nest(k):
     fns = ["#fn f%d(v) => %s" % (i, "f%d(v)" % (i + 1) if i + 1 < k else "v") for i in range(k)]
-    return {"main.asm": "\n".join(fns) + "\n#d8 f0(9)\n"}, ("either", "09")
+    return {"main.asm": "\n".join(fns) + "\n#d8 f0(9)\n"}, depth_expect(k, eval_depth_max(), "09")
 
 
 def fam_include_chain(k):
@@ -204,7 +222,23 @@ def fam_bank_addr(k):
 
 
 def fam_bank_size(k):
-    return {"main.asm": "#bankdef b\n{\n    #addr 0\n    #size %d\n    #outp 0\n}\n#d8 0x32\n" % pow2(k)}, ("either", "32")
+    return {"main.asm": "#bankdef b\n{\n    #addr 0\n    #size %d\n    #outp 0\n}\n#d8 0x32\n" % pow2(k)}, (("error",) if k >= 64 else ("either", "32"))
+
+
+def fam_bank_addr_end(k):
+    # the bank's extent given as an end address: 2^k addresses; a range that does not fit the machine word must be diagnosed
+    src = "#bankdef b\n{\n    #addr 0x8000\n    #addr_end 0x8000 + %d\n    #outp 0\n}\n#d8 0xaa\n" % pow2(k)
+    return {"main.asm": src}, (("error",) if k >= 64 else ("either", "aa"))
+
+
+def fam_bank_addr_end_fill(k):
+    src = "#bankdef b\n{\n    #addr 0x8000\n    #addr_end 0x8000 + %d\n    #outp 0\n    #fill\n}\n#d8 0xaa\n" % pow2(k)
+    return {"main.asm": src}, (("error",) if k >= 64 else ("either", None))
+
+
+def fam_bank_addr_end_below(k):
+    src = "#bankdef b\n{\n    #addr %d\n    #addr_end %d\n    #outp 0\n}\n#d8 0xaa\n" % (pow2(k), pow2(k) - 1)
+    return {"main.asm": src}, ("error",)
 
 
 def fam_bank_size_fill(k):
@@ -302,6 +336,9 @@ FAMILIES = {
     "bankdef-addr": (fam_bank_addr, POW_Q, POW_T),
     "bankdef-size": (fam_bank_size, POW_Q, POW_T),
     "bankdef-size-fill": (fam_bank_size_fill, POW_Q, POW_T),
+    "bankdef-addr-end": (fam_bank_addr_end, POW_Q, POW_T),
+    "bankdef-addr-end-fill": (fam_bank_addr_end_fill, POW_Q, POW_T),
+    "bankdef-addr-end-below-addr": (fam_bank_addr_end_below, POW_Q, POW_T),
     "bankdef-outp": (fam_bank_outp, POW_Q, POW_T),
     "bankdef-bits": (fam_bank_bits, POW_Q, POW_T),
     "bankdef-bits-times-size": (fam_bank_bits_size, [2, 10, 30, 31, 32, 33, 62, 63, 64, 65, 66], list(range(0, 70, 1))),
